@@ -154,7 +154,45 @@ class OpGen:
                 del op["pos"]
         if self.bad(0.03):
             op["omit"] = rng.choice(["time", "track_id"])
+        if rng.random() < 0.2:
+            self._aim_at_division(tracks, op, "time")
         return op
+
+    def _conflict_track_at(self, tracks, t):
+        """A track id whose use at time t meets an upstream / downstream division."""
+        g = tracks.graph
+        cands = []
+        for d in g.nodes:
+            if g.out_degree(d) != 2:
+                continue
+            if node_time(tracks, d) < t:
+                cands.append(int(tracks.get_track_id(d)))
+            for c in g.successors(d):
+                if t < node_time(tracks, c):
+                    cands.append(int(tracks.get_track_id(c)))
+        return self.rng.choice(cands) if cands else None
+
+    def _aim_at_division(self, tracks, op, tkey):
+        """Bias: the track of a dividing node, at a later time (upstream-division conflict),
+        or the track of a child of a dividing node at an earlier time (downstream conflict)."""
+        rng = self.rng
+        g = tracks.graph
+        div = [n for n in g.nodes if g.out_degree(n) == 2]
+        if not div:
+            return
+        d = rng.choice(div)
+        T = n_frames(tracks, self.cfg)
+        if rng.random() < 0.5:
+            later = [t for t in range(node_time(tracks, d) + 1, T)]
+            if later:
+                op["track_id"] = int(tracks.get_track_id(d))
+                op[tkey] = rng.choice(later)
+        else:
+            c = rng.choice(list(g.successors(d)))
+            between = [t for t in range(node_time(tracks, d), node_time(tracks, c))]
+            if between:
+                op["track_id"] = int(tracks.get_track_id(c))
+                op[tkey] = rng.choice(between)
 
     def gen_delete_node(self, tracks):
         rng = self.rng
@@ -284,6 +322,10 @@ class OpGen:
             ctid = nxt
         else:
             ctid = nxt + rng.randint(1, 30)
+        if label != 0 and label not in tracks.graph and rng.random() < 0.3:
+            c = self._conflict_track_at(tracks, t)
+            if c is not None:
+                ctid = c
         return {
             "op": "paint",
             "t": int(t),
@@ -441,6 +483,13 @@ def execute_inner(tracks, op: dict) -> Outcome:
                 updated = [(_pixels_tuple(t, groups[p]), p) for p in keys]
                 a = UserUpdateSegmentation(tracks, label, updated, op["track_id"],
                                            force=op.get("force", False))
+            elif k == "features":
+                if op.get("enable"):
+                    tracks.enable_features(list(op["enable"]),
+                                           recompute=op.get("recompute", True))
+                if op.get("disable"):
+                    tracks.disable_features(list(op["disable"]))
+                return Outcome(ok=True, ret="features", info=info)
             elif k == "undo":
                 r = tracks.undo()
                 return Outcome(ok=True, ret=r, info=info)
